@@ -3,6 +3,8 @@
 A case: rate limit, a list of telegrams
     [kind, addr, payload, send_plan, cb_raise_mask, dev_fault]
       kind      "I" incoming | "O" outgoing to a group address | "N" outgoing to an internal address
+                | "J" incoming / "D" outgoing GroupValue telegram whose destination is an IndividualAddress (not what the
+                  queue is meant for, but it can be queued; the model treats it as I / O without device)
       addr      index into the address table of that kind (some have a device, some a configured DPT)
       payload   "w1" GroupValueWrite(DPTBinary) | "w2" GroupValueWrite(2 octets) | "wbad" GroupValueWrite(5 octets, not
                 decodable by the configured DPT) | "r" GroupValueRead | "resp" GroupValueResponse(2 octets)
@@ -53,7 +55,13 @@ INTERNAL = ["i-a", "i-b"]                             # i-a has a device
 DEV_ADDRS = {"1/1/1", "1/1/2", "i-a"}
 
 
+INDIVIDUAL = ["1.1.1", "15.15.255"]
+MODEL_KIND = {"I": "I", "O": "O", "N": "N", "J": "I", "D": "O"}
+
+
 def has_dev(kind, addr):
+    if kind in "JD":
+        return False
     return (INTERNAL[addr] if kind == "N" else GROUP[addr]) in DEV_ADDRS
 
 
@@ -84,6 +92,12 @@ def generate(rng, tier):
                 for dev in (0, 1, 2):
                     tgs = [[kind, 0, "w1", ["ok", 0], cbm, dev], [kind, 1, "w2", ["ok", 100], 0, 0], ["O", 0, "wbad", ["comm"], 0, 2]]
                     yield {"rate": rate, "tgs": tgs, "gaps": [0, 0, 10], "end": "stop-join"}
+    for rate in (0, 20):
+        for kind in "JD":
+            for payload in ("w1", "w2", "r", "resp"):
+                tgs = [["O", 0, "w1", ["ok", 0], 0, 0], [kind, 0, payload, ["ok", 0], 0, 0], ["I", 1, "w1", ["ok", 0], 0, 0],
+                       ["O", 1, "w2", ["ok", 100], 0, 0]]
+                yield {"rate": rate, "tgs": tgs, "gaps": [0, 0, 0, 5], "end": "join-stop"}
     n = 800 if tier == "quick" else 12000
     for _ in range(n):
         rate = rng.choice(RATES)
@@ -92,8 +106,8 @@ def generate(rng, tier):
         faulty = rng.random() < 0.8
         tgs, gaps = [], []
         for _ in range(m):
-            kind = rng.choice("IOOON")
-            addr = rng.randrange(len(INTERNAL) if kind == "N" else len(GROUP))
+            kind = rng.choice("IOOON") if rng.random() < 0.93 else rng.choice("JD")
+            addr = rng.randrange(len(INTERNAL) if kind in "NJD" else len(GROUP))
             payload = rng.choice(["w1", "w1", "w2", "wbad", "r", "resp"])
             plan = rng.choice(plans) if (faulty and rng.random() < 0.45) else rng.choice([["ok", 0], ["ok", 1000], ["ok", 30_000]])
             cbm = rng.choice([1, 2, 3, 5, 6, 7]) if (faulty and rng.random() < 0.25) else 0
@@ -149,7 +163,7 @@ class _RecQueue(asyncio.Queue):
                     r("P", "?", "?", "?")
                 else:
                     k, _, spec = e
-                    r("P", k, spec[0], int(has_dev(spec[0], spec[1])))
+                    r("P", k, MODEL_KIND[spec[0]], int(has_dev(spec[0], spec[1])))
         else:
             r("MV", r.x_of(item))
         super().put_nowait(item)
@@ -311,10 +325,13 @@ async def _scenario(loop, case):
             if gap:
                 await asyncio.sleep(gap / 1e6)
             kind, addr, payload = spec[0], spec[1], spec[2]
-            dst = InternalGroupAddress(INTERNAL[addr]) if kind == "N" else GroupAddress(GROUP[addr])
+            if kind in "JD":
+                dst = IndividualAddress(INDIVIDUAL[addr % len(INDIVIDUAL)])
+            else:
+                dst = InternalGroupAddress(INTERNAL[addr]) if kind == "N" else GroupAddress(GROUP[addr])
             tg = Telegram(destination_address=dst, payload=mk_payload(payload),
-                          direction=TelegramDirection.INCOMING if kind == "I" else TelegramDirection.OUTGOING,
-                          source_address=IndividualAddress("1.2.3") if kind == "I" else IndividualAddress(0))
+                          direction=TelegramDirection.INCOMING if kind in "IJ" else TelegramDirection.OUTGOING,
+                          source_address=IndividualAddress("1.2.3") if kind in "IJ" else IndividualAddress(0))
             keep.append(tg)
             rec.reg[id(tg)] = (k, tg, spec)
             xknx.telegrams.put_nowait(tg)
@@ -390,7 +407,7 @@ def oracle(case, out):
             n_stop += 1
         elif t == "TX":
             k = int(e[1]) if e[1] != "None" else None
-            if k is None or specs[k][0] != "O":
+            if k is None or specs[k][0] not in "OD":
                 return f"interface send for telegram {k} which is not an outgoing group telegram ({specs[k][0] if k is not None else '?'}) (event #{idx})"
             if sending is not None:
                 return f"telegram {k} handed to the interface while telegram {sending} is still being sent (event #{idx})"
@@ -426,7 +443,7 @@ def oracle(case, out):
         return "stop() did not return"
     if n_dm != n_put + n_stop:
         return f"{n_put} telegrams + {n_stop} stop marker queued but task_done() called {n_dm} times"
-    want_tx = [k for k, s in enumerate(specs) if s[0] == "O"]
+    want_tx = [k for k, s in enumerate(specs) if s[0] in "OD"]
     if [k for k, _ in tx] != want_tx:
         return f"telegrams that reached the interface {[k for k, _ in tx]} != outgoing group telegrams in queueing order {want_tx}"
     for k, s in enumerate(specs):
@@ -434,13 +451,13 @@ def oracle(case, out):
         if o is None:
             return f"telegram {k} was never queued"
         dev = has_dev(s[0], s[1])
-        processed = s[0] in "IN" or o["se"] == "ok"
+        processed = s[0] in "INJ" or o["se"] == "ok"
         if processed:
             if dev and o["pr"] != 1:
                 return f"telegram {k} ({s[0]}) reached its device {o['pr']} times"
             dev_raised = dev and s[5]
             # a raising device ends processing: callbacks that come after it in the code are skipped (outgoing path)
-            if sorted(o["cb"]) != [0, 1] and not (dev_raised and s[0] != "I"):
+            if sorted(o["cb"]) != [0, 1] and not (dev_raised and s[0] not in "IJ"):
                 return f"telegram {k} ({s[0]}) was delivered to callbacks {o['cb']}, expected each of [0, 1] once"
         else:
             if o["pr"] or o["cb"]:
